@@ -16,7 +16,8 @@ try:
         return sh("/venv/bin/python", os.path.join(d, "demo.py"), env=env, cwd=wt, timeout=600).returncode
     def tst():
         if not tests: return None
-        p = sh("/venv/bin/python", "-m", "pytest", *tests, "-q", "-p", "no:cacheprovider", "-x" if False else "-rA", env=env, cwd=wt, timeout=1800)
+        # private network namespace: the tree's tests bind fixed ports, other runs on this host may hold them
+        p = sh("unshare", "-rn", "sh", "-c", 'ip link set lo up 2>/dev/null; exec "$@"', "sh", "/venv/bin/python", "-m", "pytest", *tests, "-q", "-p", "no:cacheprovider", "-x" if False else "-rA", env=env, cwd=wt, timeout=1800)
         return sorted(set(re.findall(r'^(PASSED|FAILED|ERROR) (\S+)', p.stdout, flags=re.M)))
     out["demo_clean_rc"] = demo()
     base = tst()
